@@ -21,7 +21,8 @@ Inductive mcfg :=
 | MS4 (cmds ports : list Z) (cidrs : list (bool * Z * Z))
 | MS5 (auth : list Z)
 | MRe (count : Z) (reval : bool)        (* reval: what the compiled regexp answered on the bytes it was given *)
-| MNot (sets : list (list mcfg)).
+| MNot (sets : list (list mcfg))
+| MAny (sets : list (list mcfg)).      (* MatcherSets.AnyMatch *)
 
 Fixpoint run_cfg (c : mcfg) (p : list byte) : res :=
   match c with
@@ -37,6 +38,8 @@ Fixpoint run_cfg (c : mcfg) (p : list byte) : res :=
   | MRe count reval => regexp_run (fun _ => reval) (Z.to_N count) p
   | MNot sets =>
       (not_match (map (fun ms => map (fun c q => fst (run_cfg c q)) ms) sets) p, 0%N)
+  | MAny sets =>
+      (any_match (map (fun ms => map (fun c q => fst (run_cfg c q)) ms) sets) p, 0%N)
   end.
 
 Inductive mscase :=
@@ -44,6 +47,7 @@ Inductive mscase :=
 | KClock (after before offset unix : Z) (obs : verdict)       (* raw seconds as parsed, before normalisation *)
 | KIp (cidrs : list (bool * Z * Z)) (a : option (bool * Z * bool)) (obs : verdict)
 | KNotIp (cidrs : list (bool * Z * Z)) (a : option (bool * Z * bool)) (obs : verdict)   (* not { remote_ip ... } *)
+| KNotIpSets (sets : list (list (bool * Z * Z))) (a : option (bool * Z * bool)) (obs : verdict)   (* not [{remote_ip A},{remote_ip B},...] *)
 | KRefS4 (cmds ports : list Z) (cidrs : list (bool * Z * Z)) (vn cd : Z) (port ip : Z) (user : string) (inp : string) (ref : bool)
 | KRefS5 (auth : list Z) (ver : Z) (methods : string) (inp : string) (ref : bool)
 | KRefPg (ssl : bool) (major minor : Z) (params : list (string * string)) (inp : string) (ref : bool).
@@ -69,6 +73,8 @@ Definition check (c : mscase) : bool :=
       verdict_eqb (fst r) obs && Bool.eqb (alloc_bound <? snd r)%N big
   | KClock a b off unix obs => verdict_eqb (clock_match (clock_provision a b) (clock_now unix off)) obs
   | KIp cidrs a obs => verdict_eqb (ip_match (map mk_cidr cidrs) (option_map mk_addr a)) obs
+  | KNotIpSets sets a obs =>
+      verdict_eqb (not_match (map (fun cs => [fun _ : list byte => ip_match (map mk_cidr cs) (option_map mk_addr a)]) sets) []) obs
   | KNotIp cidrs a obs =>
       verdict_eqb (not_match [[fun _ => ip_match (map mk_cidr cidrs) (option_map mk_addr a)]] []) obs
   | KRefS4 cmds ports cidrs vn cd port ip user inp ref =>
